@@ -381,6 +381,7 @@ props["C04"] = {
         run("root", "VxC04Reopened", {"ROUND": 0}, {}),
         run("root", "VxC04Reset", {}, {}),
         run("root", "VxC04ResetContinuity", {"ROUND2": 0}, {}),
+        run("root", "VxC04InitBehind", {}, {}, note="start-up with the local state lost and a replica whose calls fail transiently"),
     ],
     "assumptions": [
         "E-WAL (DESIGN.md C04/D.4): a WAL generation has fixed salts (salt1 = previous + 1, salt2 random; two generations never share both); frames are only appended within a generation; a restart overwrites from offset 32 and happens only when the previous generation is fully backfilled; the file is shortened only by TRUNCATE checkpoints, journal_size_limit or deletion; stale frames of older generations stay beyond the new generation's end",
